@@ -5,6 +5,7 @@ Reads a session from stdin, writes one result line per request to stdout.
 import Grevm.Driver.Kernel
 import Grevm.Driver.Components
 import Grevm.Driver.Sched
+import Grevm.Driver.Repr
 
 open Grevm Grevm.Driver
 
@@ -97,6 +98,7 @@ def runSession (lines : List String) : String :=
       | ["kernel", "dep", n] => replayDep (n.toNat?.getD 0) rest
       | "history" :: hd => replayHistory hd rest
       | ["reward"] => replayReward rest
+      | ["repr"] => ReprConf.replayRepr rest
       | ["sched", n] => SchedConf.replaySched (n.toNat?.getD 0) rest
       | _ => s!"error unknown session header: {hd}"
 
